@@ -407,6 +407,12 @@ func cmdRepro(args []string) int {
 	if strings.Contains(args[0], "/C13-") {
 		return reproC13(args[0])
 	}
+	if strings.Contains(args[0], "/C19-") {
+		return reproC19(args[0])
+	}
+	if strings.Contains(args[0], "/C18-") {
+		return reproC18(args[0])
+	}
 	if strings.Contains(args[0], "/C14-") && !strings.Contains(args[0], "input_b64") {
 		var probe struct {
 			Kind string `json:"kind"`
